@@ -59,7 +59,7 @@ fn bases(tier: Tier) -> Vec<Base> {
         for (pi, path) in ["/bkt/a", "/bkt/a%20b", "/bkt/%C3%A9", "/bkt/a+b", "/bkt/a/b", "/bkt"].into_iter().enumerate() {
             for vh in [false, true] {
                 for (qi, q) in queries.iter().enumerate() {
-                    for amz in 0..5 {
+                    for amz in 0..7 {
                         for date_kind in 0..3 {
                             for md5_type in [false, true] {
                                 for presigned in [false, true] {
@@ -104,6 +104,17 @@ fn build(b: &Base) -> Req {
         }
         3 => r.headers.push(("X-Amz-Meta-UPPER".into(), b"V".to_vec())),
         4 => r.headers.push(("x-amz-acl".into(), b"public-read".to_vec())),
+        // repeated lines whose values are NOT in ascending order (they are joined in the order sent), also interleaved with another name
+        5 => {
+            r.headers.push(("x-amz-meta-a".into(), b"v2".to_vec()));
+            r.headers.push(("x-amz-meta-a".into(), b"v1".to_vec()));
+        }
+        6 => {
+            r.headers.push(("x-amz-object-attributes".into(), b"ObjectSize".to_vec()));
+            r.headers.push(("x-amz-meta-z".into(), b"1".to_vec()));
+            r.headers.push(("x-amz-object-attributes".into(), b"ETag".to_vec()));
+            r.headers.push(("x-amz-object-attributes".into(), b"Checksum".to_vec()));
+        }
         _ => unreachable!(),
     }
     if b.md5_type {
@@ -198,6 +209,8 @@ enum Mutn {
     SubresAdded,
     SigChar(usize),
     SigLength(usize),
+    /// two lines of one repeated x-amz-* name exchanged after signing (their order is signed)
+    AmzRepeatedSwapped,
     KeyOther,
     KeyUnknown,
     ProviderSecret,
@@ -226,6 +239,7 @@ impl Mutn {
             Mutn::SubresAdded => "sub-resource-added",
             Mutn::SigChar(_) => "signature-char",
             Mutn::SigLength(_) => "signature-length",
+            Mutn::AmzRepeatedSwapped => "amz-repeated-lines-swapped",
             Mutn::KeyOther => "key-other-known",
             Mutn::KeyUnknown => "key-unknown",
             Mutn::ProviderSecret => "provider-secret",
@@ -250,7 +264,7 @@ fn is_subres(part: &str) -> bool {
 }
 
 fn mutations(r: &Req, b: &Base) -> Vec<Mutn> {
-    let mut m = vec![Mutn::None, Mutn::Method, Mutn::Md5, Mutn::ContentType, Mutn::AmzAdded, Mutn::SubresAdded, Mutn::KeyOther, Mutn::KeyUnknown, Mutn::ProviderSecret, Mutn::EqOtherQueryAdded, Mutn::EqOtherHeaderChanged, Mutn::EqHeaderOrder];
+    let mut m = vec![Mutn::None, Mutn::AmzRepeatedSwapped, Mutn::Method, Mutn::Md5, Mutn::ContentType, Mutn::AmzAdded, Mutn::SubresAdded, Mutn::KeyOther, Mutn::KeyUnknown, Mutn::ProviderSecret, Mutn::EqOtherQueryAdded, Mutn::EqOtherHeaderChanged, Mutn::EqHeaderOrder];
     if b.presigned {
         m.push(Mutn::ExpiresValue);
     } else {
@@ -420,6 +434,18 @@ fn apply(mu: &Mutn, r: &mut Req, keys: &mut Vec<(String, String)>, b: &Base) -> 
             set_q(r, &p);
         }
         Mutn::EqOtherHeaderChanged => r.headers.push(("user-agent".into(), b"x".to_vec())),
+        Mutn::AmzRepeatedSwapped => {
+            // the first pair of lines with the same x-amz-* name and different values
+            let hs = r.headers.clone();
+            'outer: for i in 0..hs.len() {
+                for j in i + 1..hs.len() {
+                    if hs[i].0.eq_ignore_ascii_case(&hs[j].0) && hs[i].0.to_ascii_lowercase().starts_with("x-amz-") && hs[i].1 != hs[j].1 {
+                        r.headers.swap(i, j);
+                        break 'outer;
+                    }
+                }
+            }
+        }
         Mutn::EqHeaderOrder => {
             // only lines with *different* names are permuted: the order of repeated lines of one name is meaningful (joined in order)
             let mut hs = r.headers.clone();
@@ -500,7 +526,7 @@ pub fn run(ctx: &Ctx) -> (Acc, Report) {
     });
     let rep = Report {
         level: "exploration",
-        rule: format!("{n_bases} requests signed by the reference V2 signer (4 methods x 6 paths x path-style|virtual-hosted x 28 query shapes incl. every documented sub-resource alone, pairs, and unlisted parameters x 5 x-amz-header shapes x Date|x-amz-date|both x Content-MD5/Type x header|presigned) ; presigned ones at clock = Expires-1s, Expires-1ms, Expires, +1ms, +999ms, +1s; every single-component mutation of the string-to-sign inputs (method, md5, type, date, each amz header value/removal/addition, each path byte, host bucket, each sub-resource value/removal, addition, each signature character, key id, provider secret, Expires) and 3 rewrites the signature does not bind. Oracle: reference verifier (R4) validated on the 4 documentation examples."),
+        rule: format!("{n_bases} requests signed by the reference V2 signer (4 methods x 6 paths x path-style|virtual-hosted x 28 query shapes incl. every documented sub-resource alone, pairs, and unlisted parameters x 7 x-amz-header shapes (incl. repeated lines in descending order, interleaved with another name) x Date|x-amz-date|both x Content-MD5/Type x header|presigned) ; presigned ones at clock = Expires-1s, Expires-1ms, Expires, +1ms, +999ms, +1s; every single-component mutation of the string-to-sign inputs (method, md5, type, date, each amz header value/removal/addition, each path byte, host bucket, each sub-resource value/removal, addition, each signature character, key id, provider secret, Expires) and 3 rewrites the signature does not bind. Oracle: reference verifier (R4) validated on the 4 documentation examples."),
         exhaustive: true,
         extra: json!({"histories": hist_n, "history_requests_executed": hist_steps, "history_rule": "all sequences of length 1..3 over 8 requests of this property's scheme(s) (two identities x honest / signed with the other identity's secret x two scopes) plus every pair led by a request of another scheme, on one service instance, single-threaded, fixed order; each verdict = the reference verdict of that request alone", "base_requests": n_bases}),
         assumptions: vec!["clock owned through the verif-hooks seam".into(), "sub-resource list = the documentation's list plus delete and the response-* overrides; `torrent` is not in the grid".into()],
